@@ -14,7 +14,7 @@ PROPERTY = "C04"
 
 META = {
     "bounds": {
-        "quick": "a in [0,2^24), m,n in [0,2^17); LoROM, HiROM + 16 .map configurations (two with a mirrored RAM range); laws: translate, advance (also from starts below the bank window: offset n larger than the start's own translation, result in-window), associativity",
+        "quick": "a in [0,2^24), m,n in [0,2^17); LoROM, HiROM + 16 .map configurations (two with a mirrored RAM range); laws: translate, advance (also from starts below the bank window: offset n larger than the start's own translation, result in-window), associativity; Bus.unmap of every mapping of 4 user buses rejects every address afterwards",
         "thorough": "a in [0,2^24), m,n in [0,2^17); LoROM, HiROM + 60 .map configurations (incl. VERIF_SEED-drawn); same laws",
     },
     "outside": [
@@ -113,6 +113,10 @@ def jobs(tier, seed):
     for name, cfg in cfgs.items():
         for law in ("translate", "advance", "assoc"):
             out.append({"id": f"{name}/{law}", "config": name, "cfg": cfg, "law": law})
+    # Bus.unmap: once every mapping of a user bus is removed again, every bank is rejected
+    for name, cfg in list(cfgs.items())[:6]:
+        if "rom" not in cfg:
+            out.append({"id": f"{name}/unmap-all", "config": name, "cfg": cfg, "law": "translate", "unmap": True})
     # the built-in mappings must be what a fresh Program sees even after another Program of the same
     # process installed a user mapping
     other = map_configs("quick", 0)["map06"]
@@ -141,9 +145,14 @@ def run(spec, cx):
     a = cx.int("a", 0, 0xFFFFFF)
     law = spec["law"]
     prog, bus = get_bus(spec)
+    if spec.get("unmap"):
+        for ident in [k for k in list(bus.mappings) if not str(k).endswith("_mirror")]:
+            bus.unmap(ident)
     try:
         A = bus.get_address(a)
     except KeyError:
+        if spec.get("unmap"):
+            return ("unmapped",)      # (the Bus is the subject here; Program.get_physical_address keeps its own view)
         try:
             prog.get_physical_address(a)
             return ("unmapped-but-translated",)
@@ -232,6 +241,8 @@ def check(spec, cx, out):
     res = []
     if kind == "unmapped-but-translated":
         return [("unmapped-rejected", z3.BoolVal(False))]
+    if spec.get("unmap"):
+        return [("rejected-after-unmap", z3.BoolVal(kind == "unmapped"))]
     if kind == "unmapped":
         return [("unmapped-iff-no-range", z3.And(z3.Not(is_rom), z3.Not(ram)))]
     res.append(("mapped-iff-range", z3.Or(is_rom, ram)))
